@@ -398,4 +398,64 @@ theorem reaches_full_threshold_partial (T : ℚ) (p cf0 : ℕ) (hnd : Known.dege
   have : (tok.tokens - ((mkCfg T p cf0).warn : ℤ)).toNat ≤ (mkCfg T p cf0).max - (mkCfg T p cf0).warn := by omega
   omega
 
+/-! ## `warmup-late-ramp`: the warm-up period is not long enough -/
+
+theorem tok_eq (a : Tok) (x : ℤ) (y : ℕ) (h1 : a.tokens = x) (h2 : a.lastFilled = y) : a = ⟨x, y⟩ := by
+  cases a; simp_all
+
+theorem cfg_2_3_2 : (mkCfg (2 : ℚ) 3 2).warn = 6 ∧ (mkCfg (2 : ℚ) 3 2).max = 10 := by
+  simp only [mkCfg, effCf, c_ofNat]
+  rw [trunc_eq 6 (by norm_num) (by norm_num) (by norm_num), trunc_eq 4 (by norm_num) (by norm_num) (by norm_num)]
+  exact ⟨rfl, rfl⟩
+
+/-- `warmup-late-ramp` witness (`T = 2`, period 3 s, cold factor 2; token level): starting cold and admitting each
+    second exactly what the threshold permits (`⌊allowed⌋ = 1`), the threshold in force after the warm-up period
+    (fourth sync, second 3) is `8/5`, not yet the configured `2` -/
+theorem late_ramp_witness :
+    allowed (mkCfg (2 : ℚ) 3 2)
+      (drainSeq (mkCfg (2 : ℚ) 3 2) {} (fun j => (10000 + 1000 * j, if j = 0 then 0 else 1)) 4).tokens = some (8 / 5) := by
+  have hnd : Known.degenerateNaN (mkCfg (2 : ℚ) 3 2) = false := by
+    rw [nondegenerate_iff, cfg_2_3_2.1, cfg_2_3_2.2]; norm_num
+  have hwf := mkCfg_wf 2 3 2 hnd
+  have hT : (mkCfg (2 : ℚ) 3 2).T = 2 := rfl
+  have hcf : (mkCfg (2 : ℚ) 3 2).cf = 2 := rfl
+  have hw := cfg_2_3_2.1
+  have hm := cfg_2_3_2.2
+  have htr : (Carrier.trunc (mkCfg (2 : ℚ) 3 2).T).toNat / (mkCfg (2 : ℚ) 3 2).cf ≤ 1 := by
+    rw [hT, hcf, trunc_eq 2 (by norm_num) (by norm_num) (by norm_num)]; decide
+  -- second 0: the first sync fills the bucket
+  have d1 : sync (mkCfg (2 : ℚ) 3 2) {} 10000 0 = ⟨10, 10000⟩ := by
+    apply tok_eq
+    · rw [sync_idle_refills hwf (by rw [hT, hcf]; norm_num) {} (le_refl _) (by rw [hw]; decide) 10000 (by decide)
+        (by rw [hm, hT]; norm_num), hm]; rfl
+    · rw [sync_lastFilled _ _ _ _ (by decide)]
+  have step : ∀ (x : ℤ) (l t : ℕ), 6 < x → x ≤ 10 → l < t - t % 1000 →
+      sync (mkCfg (2 : ℚ) 3 2) ⟨x, l⟩ t ((1 : ℕ) : ℚ) = ⟨x - 1, t - t % 1000⟩ := by
+    intro x l t h1 h2 h3
+    apply tok_eq
+    · rw [sync_drains _ _ _ 1 h3 (by rw [hw]; exact_mod_cast h1) (by rw [hm]; exact_mod_cast h2) htr]
+      show max (x - ((1 : ℕ) : ℤ)) 0 = x - 1
+      rw [max_eq_left (by push_cast; omega)]; rfl
+    · rw [sync_lastFilled _ _ _ _ h3]
+  have e : drainSeq (mkCfg (2 : ℚ) 3 2) {} (fun j => (10000 + 1000 * j, if j = 0 then 0 else 1)) 4 = ⟨7, 13000⟩ := by
+    simp only [drainSeq]
+    norm_num
+    rw [d1]
+    have := step 10 10000 11000 (by norm_num) (by norm_num) (by norm_num)
+    simp only [Nat.cast_one] at this
+    rw [this]
+    have := step 9 11000 12000 (by norm_num) (by norm_num) (by norm_num)
+    simp only [Nat.cast_one] at this
+    norm_num at this ⊢
+    rw [this]
+    have := step 8 12000 13000 (by norm_num) (by norm_num) (by norm_num)
+    simp only [Nat.cast_one] at this
+    norm_num at this ⊢
+    rw [this]
+  rw [e, allowed_closed_form hwf]
+  unfold val
+  simp only [hw, hm, hT, hcf]
+  norm_num
+
+
 end Sentinel.C11
